@@ -29,6 +29,18 @@ class Analysis:
         that a list contributes the depth of its element type even when it may be empty."""
         self.classes = list(classes)
         self.start = start
+        # a class named as a field type is supplied by that declaration even if it is not listed
+        # (the library registers it, and with it its place under its abstract parent)
+        grew = True
+        while grew:
+            grew = False
+            for c in list(self.classes) + [start]:
+                if isinstance(c, type) and not is_abstract(c):
+                    for _, fty in fields(c):
+                        for m in self.components(fty):
+                            if m not in self.classes and m is not start:
+                                self.classes.append(m)
+                                grew = True
         self.exp = 1 if expansion_depthing else 0
         self.nonempty = lists_transparent_nonempty
         self.symbols = self._reachable()
